@@ -16,6 +16,7 @@ import os
 from .. import core, gen, chan, dialects, e1
 from ..core import Property, RunOut, Violation
 from .c05 import C05, FAMILY
+FAMILY = dict(FAMILY, new="tolerant-new-containers")
 
 ALPHABET = list("=(){}<>,;\"'#/*-+.:_ \t\n\r\f\v\0") + list("0123456789") + \
     list("eETZ") + ["END", "GROUP", "END_OBJECT", "16#", "-\n", "/*", "*/",
@@ -140,6 +141,7 @@ class C06(Property):
     def run(self, rng, index, tier):
         out = RunOut()
         config = rng.choice(dialects.CONFIGS)
+        use_new = rng.random() < 0.1
         toks = None
         if rng.random() < 0.3 and corpus():
             name, text = rng.choice(corpus())
@@ -166,6 +168,8 @@ class C06(Property):
             or ["trunc"]
 
         def do(case, nontrivial=True):
+            if use_new and "plan" not in case:
+                case = dict(case, config="new")
             vs = self.check(out, case)
             out.violations.extend(vs)
             if nontrivial:
